@@ -11,15 +11,18 @@
 (*   UserWARNING/UserERROR/UserFATAL    asmallg.c CodeWARNING/ERROR/FATAL  *)
 (*   PassInit / PassExit                asmerr.c AsmErrPassInit/PassExit   *)
 (*                                                                         *)
-(*  o : option record  [werror, maxerr, suppw, codeout]                    *)
-(*       -Werror, -maxerrors n (0 = off), -w, -G (code output)             *)
+(*  o : option record  [werror, maxerr, suppw, codeout, throw]             *)
+(*       -Werror, -maxerrors n (0 = off), -w, -G (code output), -Y         *)
 (*  d : [err, warn     the counters ErrorCount / WarnCount                 *)
 (*       fatal         EmergencyStop(); exit(3) has been reached           *)
 (*       exp, inexp    pExpectErrors (list of numbers), InExpect           *)
 (*       emE, emW, emF ghost: lines of class error / warning / "fatal"     *)
 (*                     really written to the error channel in this pass    *)
 (*       supp, taken   ghost: warnings swallowed by -w, errors consumed by *)
-(*                     EXPECT]                                             *)
+(*                     EXPECT                                              *)
+(*       jmp           JmpErrors: jump errors raised before a repass was   *)
+(*                     requested (candidates for the -Y discard)           *)
+(*       disc          ghost: error lines written but discounted by -Y]    *)
 (*                                                                         *)
 (* The ghost tallies are naturals.  The counters are what the constant     *)
 (* Wrap says:  Wrap = 0      unbounded naturals (what property C02 needs), *)
@@ -47,6 +50,7 @@ NumNullResMem       == 290      \* a warning  (< 1000)
 NumDoubleDef        == 1000
 NumSymbolUndef      == 1010
 NumUnknownInstr     == 1200
+NumJmpDistTooBig    == 1370
 NumNoRestoreFrame   == 1460
 NumMissEndif        == 1470
 NumMissingEndSect   == 1485
@@ -70,9 +74,10 @@ Classify(o, num) == IF IsFatalNum(num) THEN "fatal"
                     ELSE IF IsWarnNum(num) /\ ~o.werror THEN "warning" ELSE "error"
 
 InitD == [err |-> 0, warn |-> 0, fatal |-> FALSE, exp |-> <<>>, inexp |-> FALSE,
-          emE |-> 0, emW |-> 0, emF |-> 0, supp |-> 0, taken |-> 0]
+          emE |-> 0, emW |-> 0, emF |-> 0, supp |-> 0, taken |-> 0, jmp |-> 0, disc |-> 0]
 
-\* AsmErrPassInit(): counters cleared, pending expectations dropped
+\* AsmErrPassInit(): counters cleared, pending expectations dropped.  (As originally pinned JmpErrors was NOT cleared
+\* here nor anywhere else per pass / file: Driver.tla, Leaky element "jmperrors".)
 PassInit == InitD
 
 ---------------------------------------------------------------------------
@@ -95,6 +100,27 @@ WrXErrorPos(o, d, num) ==
   ELSE IF ~o.codeout /\ num = NumUnknownInstr THEN d
   ELSE IF o.suppw /\ IsWarnNum(num) THEN [d EXCEPT !.supp = @ + 1]
   ELSE WrErrorString(o, d, IsWarnNum(num), IsFatalNum(num))
+
+\* ---- the jump-error discard protocol (asmerr.c WrXErrorPos + asmpars.c SymbolAdder, option -Y = o.throw) ----------
+\* A "jump distance too big" / "target on different page" error raised while no repass has been requested yet in
+\* this pass is remembered in JmpErrors (d.jmp): the label values it used may be stale.  (Once Repass is set the code
+\* generators do not even raise it: the symbol value is flagged questionable.)
+WrJumpError(o, d, repass) ==
+  IF Has(d.exp, NumJmpDistTooBig) THEN [d EXCEPT !.exp = RemoveFirst(@, NumJmpDistTooBig), !.taken = @ + 1]
+  ELSE WrErrorString(o, [d EXCEPT !.jmp = IF repass THEN @ ELSE @ + 1], FALSE, FALSE)
+
+\* SymbolAdder finds that a label has another value than in the previous pass (=> Repass := TRUE, by the caller).
+\* If this is the first such discovery of the pass, the remembered jump errors are forgotten; they are taken out of
+\* ErrorCount again ONLY with -Y (and only up to pass ThrowMaxPass) - although their lines have been written.
+\* d.disc (ghost) = error lines written in this pass but not counted any more.
+ThrowMaxPass == 32
+Sub(a, b) == IF a >= b THEN a - b ELSE 2000000000      \* (unsigned underflow: "a huge value", beyond TLC's integers)
+LabelMoved(o, d, repass, pass) ==
+  IF ~repass /\ d.jmp > 0
+  THEN IF o.throw /\ pass <= ThrowMaxPass
+       THEN [d EXCEPT !.err = Sub(@, d.jmp), !.disc = @ + d.jmp, !.jmp = 0]
+       ELSE [d EXCEPT !.jmp = 0]
+  ELSE d
 
 \* the user pseudo instructions (argument is a valid string): straight into WrErrorString (UserBypass)
 UserWARNING(o, d) == WrErrorString(o, d, TRUE, FALSE)
